@@ -1066,7 +1066,7 @@ class Engine:
         for gname, sort in gl:
             setattr(g, gname, sort(uid(gname + "!cg")) if callable(sort) else z3.Const(uid(gname + "!cg"), sort))
         F.g = F2.g = g
-        for f in c.ghost_defs(F):
+        for f in c.call_defs(F):
             p.pc.append(f)
         for en, f in c.call_ensures(F2, sem.mode):
             if en.startswith("hint:"):
@@ -1114,7 +1114,19 @@ class Engine:
         return self._cast_value(rets[0][1], self.tir.return_type)
 
     # ------------------------------------------------------------------ bytes / arrays
-    def _fix_slice(self, sl, size):
+    def _quick(self, p, f, rlimit=8_000_000):
+        """is f implied by the path condition?  (cheap solver query; used only to *simplify* terms,
+        a 'no'/'unknown' keeps the general form, so soundness never depends on it)"""
+        if self.unroll:
+            return as_py(f) is True
+        s_ = z3.Solver()
+        s_.set("rlimit", rlimit)
+        for h in p.pc:
+            s_.add(h)
+        s_.add(z3.Not(f))
+        return s_.check() == z3.unsat
+
+    def _fix_slice(self, sl, size, p=None):
         """python slice normalisation (step 1) -> (start, length) in index sort"""
         sem = self.sem
         zero = sem.idx_const(0)
@@ -1123,13 +1135,16 @@ class Engine:
             if x is None:
                 return default
             t = x.t
-            if sem.mode == INT:
-                return z3.If(t < 0, z3.If(t + size < 0, zero, t + size), z3.If(t > size, size, t))
+            if p is not None and not self.unroll and self._quick(p, z3.And(t >= 0, t <= size)):
+                return t
             return z3.If(t < 0, z3.If(t + size < 0, zero, t + size), z3.If(t > size, size, t))
 
         a = fix(sl.start, zero)
         b = fix(sl.stop, size)
-        ln = z3.If(b - a < 0, zero, b - a) if True else None
+        if p is not None and not self.unroll and self._quick(p, b - a >= 0):
+            ln = b - a
+        else:
+            ln = z3.If(b - a < 0, zero, b - a)
         if self.unroll:
             a, ln = z3.simplify(a), z3.simplify(ln)
         return a, ln
@@ -1150,7 +1165,7 @@ class Engine:
             return base.items[c]
         if isinstance(base, BytesV):
             if isinstance(idx, SliceV):
-                a, ln = self._fix_slice(idx, base.length)
+                a, ln = self._fix_slice(idx, base.length, p)
                 return BytesV(base.aid, base.off + a, ln, base.bid, sem, owner=base.owner)
             it, inb = sem.index_term(idx, base.length)
             obl.append(("bounds", inb))
@@ -1296,7 +1311,7 @@ class Engine:
                     raise Unsupported("array store of rank %d into rank %d at depth %d" % (val.ndim, arr.ndim, d))
                 dim = arr.shape[d]
                 if sl is not None:
-                    start, ln = self._fix_slice(sl, dim)
+                    start, ln = self._fix_slice(sl, dim, p)
                 else:
                     start, ln = sem.idx_const(0), dim
                 obl.append(("slice-assign-same-size", ln == val.shape[0]))
